@@ -819,8 +819,12 @@ impl<'a> Parser<'a> {
         };
 
         while let Some(digit) = self.inc().and_then(|ch| ch.to_digit(10)) {
-            value *= 10;
-            value += digit;
+            value = match value.checked_mul(10).and_then(|v| v.checked_add(digit)) {
+                Some(v) => v,
+                None => {
+                    return Err(self.parse_error("Number too large in duration".to_string()));
+                }
+            };
         }
 
         Ok(value)
